@@ -13,7 +13,7 @@ PROP = "C06"
 TECHNIQUE = "Hypothesis-generated rate arrays (general and dyadic, with zero-rate bins) x constructed uniform draws on/next to every cumulative boundary vs. exact rational inverse-CDF reference; seeded reruns compared bit for bit; quantile recomputed from the returned distribution"
 RULE = ("one case = forecast (rates pairwise distinct; 'dyadic' variant: multiples of 2^-6 summing to a power of two so cumulative "
         "boundaries are exact doubles) x observed catalog x 1..6 simulations whose injected uniform numbers are constructed per class: 0.0, "
-        "largest double below 1, exactly a boundary F_k and its two neighbours (dyadic only), interior of a chosen bin; run through Poisson "
+        "largest double below 1, exactly a boundary F_k and its two neighbours (dyadic only), interior of a chosen bin (1 case in 6 hands in a pool with 1..3 more rows than simulations: length and quantile judged); run through Poisson "
         "CL/S/M, binary S/CL and Brier tests; plus seeded runs (seed 0, 1, 2^31-1, random) of all seven tests repeated under different global "
         "RNG states, with soft spies on the simulators; plus resampled-M / MLL seeded reruns. Non-trivial = rate array with >= 1 zero-rate bin "
         "and >= 1 boundary-adjacent or extreme draw; distinct = canonical JSON.")
